@@ -1691,6 +1691,65 @@ pub(crate) fn reftest_lsp(src: &str) {
     }
 }
 
+/// Wrappers exposing private items to the verification hooks.
+#[cfg(wilfred_garden_verif)]
+pub(crate) mod verif_access {
+    use std::path::PathBuf;
+
+    use rustc_hash::FxHashMap;
+
+    pub(crate) struct Server {
+        documents: super::DocumentStore,
+    }
+
+    impl Server {
+        pub(crate) fn new() -> Self {
+            Self {
+                documents: FxHashMap::default(),
+            }
+        }
+
+        /// Returns the outgoing messages and the action taken
+        /// ("continue", "shutdown" or "exit").
+        pub(crate) fn handle(
+            &mut self,
+            message: &serde_json::Value,
+        ) -> (Vec<serde_json::Value>, &'static str) {
+            let (out, action) = super::handle_message(message, &mut self.documents, None);
+            let action = match action {
+                super::Action::Continue => "continue",
+                super::Action::Shutdown => "shutdown",
+                super::Action::Exit => "exit",
+            };
+            (out, action)
+        }
+
+        pub(crate) fn documents(&self) -> Vec<(PathBuf, String)> {
+            let mut docs: Vec<_> = self
+                .documents
+                .iter()
+                .map(|(k, v)| (k.clone(), v.clone()))
+                .collect();
+            docs.sort();
+            docs
+        }
+    }
+
+    pub(crate) fn offset_to_lsp_position(src: &str, offset: usize, line_number: usize) -> (u32, u32) {
+        let p = super::offset_to_lsp_position(src, offset, line_number);
+        (p.line, p.character)
+    }
+
+    pub(crate) fn line_char_to_offset(src: &str, line: usize, character: usize) -> usize {
+        super::line_char_to_offset(src, line, character)
+    }
+
+    pub(crate) fn whole_document_range(src: &str) -> (u32, u32, u32, u32) {
+        let r = super::whole_document_range(src);
+        (r.start.line, r.start.character, r.end.line, r.end.character)
+    }
+}
+
 #[cfg(test)]
 mod tests {
     use super::*;
